@@ -833,3 +833,26 @@ where
             }
     }
 }
+
+/// Read-only access to the private representation, for verification harnesses only.
+#[cfg(brood_verif)]
+impl<R> Archetype<R>
+where
+    R: Registry,
+{
+    pub(crate) fn verif_raw(
+        &self,
+    ) -> (
+        &Identifier<R>,
+        (*mut entity::Identifier, usize),
+        &Vec<(*mut u8, usize)>,
+        usize,
+    ) {
+        (
+            &self.identifier,
+            self.entity_identifiers,
+            &self.components,
+            self.length,
+        )
+    }
+}
